@@ -1328,11 +1328,12 @@ class ReadParquetFSSpec(ReadParquet):
         """Return known partition lengths using parquet statistics"""
         if not self.filters:
             self._update_length_statistics()
-            return tuple(
-                length
-                for i, length in enumerate(self._pq_length_stats)
-                if not self._filtered or i in self._partitions
-            )
+            if not self._filtered:
+                return tuple(self._pq_length_stats)
+            # ``_pq_length_stats`` already holds the selected partitions only (in
+            # ascending order): do not select from it a second time
+            lengths = dict(zip(sorted(set(self._partitions)), self._pq_length_stats))
+            return tuple(lengths[i] for i in self._partitions)
         return None
 
     def _update_length_statistics(self):
